@@ -4,11 +4,16 @@
   Property theorems only (helpers: Lemmas.lean; model: Model.lean).  `fns : Fns F` ranges over ALL
   discretization / exp / isnan functions, `F` over all number types unless `Rat` is written.
   The clause "keeps predicting the same after copies, assignments, moves and after the original
-  individual is gone" has no content in Lean (values are immutable): it is carried by the harness
-  under ASan alone (partial).
+  individual is gone" is the section "object lifetime": a heap of individuals, model objects whose
+  interpreter holds an ADDRESS, and the special member functions as a table generated from the
+  clang AST (GenStorage.lean).
 -/
 import Vita.C08.Lemmas
 import Vita.C08.Laws
+import Vita.C08.LifeLemmas
+import Vita.C08.GenStorage
+import Vita.C08.Bridge
+import Vita.C08.DiscLaws
 import Vita.C05.Props
 
 namespace Vita.C08
@@ -313,6 +318,290 @@ theorem binary_evaluator_scores_model (d : List (TEx Rat)) :
   simp only [nWrong, List.filter_map, List.length_map]
   rfl
 
+/-! ## discretization.h, distribution, team compositions and model_metric.cc for DOUBLES
+
+  `ConfLaws` / `DiscLaws` : IEEE-754 and libm facts as hypotheses; `ratConfLaws` / `ratDiscLaws`
+  show they are satisfiable. -/
+
+/-- `sigmoid_01(x) ∈ [0,1]` for every double that is not NaN (huge values, ±∞: nothing overflows) -/
+theorem sigmoid01_unit_ieee {F} [Elem F] (L : DiscLaws F) (x : F) (hx : ¬ L.nan x) :
+    nn (sigmoid01 x) ∧ le (sigmoid01 x) (one : F) = true := sigmoid01_unit_ieee' L x hx
+
+/-- `discretization(x, max) ≤ max` for every non-NaN double: the `Ensures` of discretization.h -/
+theorem discretization_le_max_ieee {F} [Elem F] (L : DiscLaws F) (x : F) (hx : ¬ L.nan x) (max : Nat)
+    (hm : max < 2 ^ 53) : discretization x max ≤ max := discretization_le_max_ieee' L x hx max hm
+
+/-- the slot computation with THE discretization of discretization.h: for every output that is not
+    NaN the clamp of `slot()` is never taken (`slot = discretization(value, last_slot)`), and whatever
+    the cast of a NaN yields the clamp keeps the slot inside the table -/
+theorem slot_is_discretization_ieee {F} [Elem F] (L : DiscLaws F) (fns : Fns F)
+    (hd : fns.disc = fun v last => discretization v last) (ns : Nat) (h0 : 0 < ns) (hn : ns < 2 ^ 53) (out : Option F) :
+    slot fns out ns < ns ∧
+    ∀ v, out = some v → ¬ L.nan v → slot fns out ns = discretization v (ns - 1) := by
+  refine ⟨slot_lt fns out ns h0, ?_⟩
+  intro v hv hnan
+  subst hv
+  have := discretization_le_max_ieee' L v hnan (ns - 1) (by omega)
+  unfold slot
+  simp only [hd]
+  split
+  · omega
+  · rfl
+
+example : @DiscLaws Rat ratElem := ratDiscLaws
+
+/-- the distribution the Gaussian classifier keeps per class (`distribution::add` +
+    `update_variance`, exact arithmetic): after any non-empty sequence of values `count` is their
+    number, `mean()` their arithmetic mean and `variance()` their population variance -/
+theorem dist_is_mean_variance (ex : Rat → Rat) (dsc : Rat → Nat → Nat) (xs : List Rat) (h : xs ≠ []) :
+    let fns : Fns Rat := ⟨dsc, ex, fun _ => false, 10000000⟩
+    let d := xs.foldl (Dist.push fns) ⟨0, 0, 0⟩
+    d.count = xs.length ∧ d.mean = xs.sum / (xs.length : Rat) ∧
+    d.variance = (xs.map (fun x => (x - d.mean) * (x - d.mean))).sum / (xs.length : Rat) := by
+  intro fns d
+  have hw := welford_is_mean_variance ex dsc xs h
+  have hb : @Cls.pushAll Rat (ratNumC ex dsc) (@Cls.Dist.empty Rat _) xs = toCls d :=
+    pushAll_eq fns xs ⟨0, 0, 0⟩
+  simp only [hb] at hw
+  exact hw
+
+/-- NaN is never pushed (`isnan(val)` → return), so it can never poison a mean -/
+theorem dist_ignores_nan {F} [NumN F] (fns : Fns F) (d : Dist F) (v : F) (h : fns.isNaN v = true) :
+    d.push fns v = d := by
+  unfold Dist.push; simp [h]
+
+/-- Gaussian `tag` for doubles, the whole function: for any distributions (NaN variances included)
+    and any `exp` whose results are ≥ 0 or NaN, the confidence is in [0,1] -/
+theorem gauss_tag_confidence_unit_ieee {F} [NumN F] (L : ConfLaws F) (fns : Fns F)
+    (hexp : ∀ x, nn (fns.exp x) ∨ L.nan (fns.exp x)) (ds : List (Dist F)) (query : Option F) :
+    nn (gaussTag fns ds query).2 ∧ le (gaussTag fns ds query).2 (one : F) = true := by
+  simp only [gaussTag]
+  apply gaussConf_unit_ieee L
+  intro p hp
+  simp only [List.mem_map] at hp
+  obtain ⟨d, _, rfl⟩ := hp
+  unfold gaussP
+  simp only []
+  split
+  · split
+    · exact Or.inl L.zero_le_one
+    · exact Or.inl L.zero_nn
+  · exact hexp _
+
+/-- majority voting: the winner has the largest number of votes … -/
+theorem mv_rule {F} [NumN F] (classes : Nat) (tags : List (Nat × F)) (j : Nat) :
+    (votesOf classes (tags.map (·.1))).getD j 0 ≤
+      (votesOf classes (tags.map (·.1))).getD (mv classes tags).1 0 := argMaxVotes_max _ j
+
+/-- … and its confidence (share of the votes) is in [0,1] for doubles -/
+theorem mv_conf_unit_ieee {F} [NumN F] (L : ConfLaws F) (classes : Nat) (tags : List (Nat × F)) (h : tags ≠ []) :
+    nn (mv classes tags).2 ∧ le (mv classes tags).2 (one : F) = true := by
+  simp only [mv]
+  apply L.frac_unit
+  · have h1 := getD_le_sum (votesOf classes (tags.map (·.1))) (argMaxVotes (votesOf classes (tags.map (·.1))))
+    have h2 := votesOf_sum_le classes (tags.map (·.1))
+    simp only [List.length_map] at h2
+    omega
+  · cases tags with
+    | nil => exact absurd rfl h
+    | cons _ _ => simp
+
+/-- winner takes all: no member is surer than the winner (exact arithmetic) -/
+theorem wta_rule (tags : List (Nat × Rat)) : ∀ t ∈ tags, t.2 ≤ (wta tags).2 := by
+  cases tags with
+  | nil => intro t ht; cases ht
+  | cons t0 rest =>
+    intro t ht
+    simp only [wta]
+    have := wta_fold_max rest t0
+    simp only [List.mem_cons] at ht
+    rcases ht with rfl | ht
+    · exact this.1
+    · exact this.2 t ht
+
+/-- a team of classifiers, both compositions, for doubles: when every member's confidence is in
+    [0,1] (dyn-slot: always; Gaussian: `gauss_tag_confidence_unit_ieee`) so is the team's -/
+theorem team_confidence_unit_ieee {F} [NumN F] (L : ConfLaws F) (classes : Nat) (tags : List (Nat × F)) (h : tags ≠ [])
+    (hm : ∀ t ∈ tags, nn t.2 ∧ le t.2 (one : F) = true) :
+    (nn (wta tags).2 ∧ le (wta tags).2 (one : F) = true) ∧
+    (nn (mv classes tags).2 ∧ le (mv classes tags).2 (one : F) = true) :=
+  ⟨wta_inherits (fun t => nn t.2 ∧ le t.2 (one : F) = true) tags h hm, mv_conf_unit_ieee L classes tags h⟩
+
+/-- `accuracy_metric` (the only metric of model_metric.cc), both overloads, for doubles: a value in
+    [0,1] on every non-empty dataset -/
+theorem accuracy_unit_ieee {F} [NumN F] (L : ConfLaws F) :
+    (∀ pairs : List (Nat × Nat), pairs ≠ [] →
+      nn (accuracyClass (F := F) pairs) ∧ le (accuracyClass (F := F) pairs) one = true) ∧
+    (∀ pairs : List (Option F × F), pairs ≠ [] →
+      nn (accuracyReg pairs) ∧ le (accuracyReg pairs) one = true) := by
+  constructor
+  · intro pairs h
+    unfold accuracyClass
+    exact L.frac_unit _ _ (List.length_filter_le _ _) (List.length_pos_iff.mpr h)
+  · intro pairs h
+    unfold accuracyReg
+    exact L.frac_unit _ _ (List.length_filter_le _ _) (List.length_pos_iff.mpr h)
+
+/-- `accuracy_metric` is the only class derived from `model_metric` in the current source (generated
+    list): a new metric breaks this obligation until it is modelled -/
+theorem every_metric_is_modelled : Gen.metrics = ["accuracy_metric"] := by decide
+
+/-! ## it is the same function the TRAINING evaluator scored (C05's evaluators END TO END)
+
+  `Cls.dynSlotEvaluator`, `Cls.gaussianEvaluator`, `Cls.binaryEvaluator` are C05's models of
+  `*_evaluator::operator()` from the member programs' outputs to the fitness; `dynModels` /
+  `gaussModels` / `binModels` + `predict` are THIS file's model of what `lambdify(ind)` returns (one
+  classifier per member trained on the evaluator's dataset, winner takes all; one member = an
+  individual).  Bridge.lean proves the two classifier models equal definition by definition, for
+  every number type. -/
+
+/-- dyn-slot, individuals and teams: the evaluator's count of misclassified examples is
+    `#examples − #(training rows lambdify(ind) predicts right)` -/
+theorem dyn_evaluator_scores_lambdify (fns : Fns Rat) (classes xslot members : Nat) (d : List (Cls.TEx Rat)) :
+    (@Cls.dynSlotEvaluator Rat (numC fns) classes xslot members d).1 =
+      [ - (((d.length - nCorrect (dynModels fns classes xslot members d) d : Nat)) : Rat) ] := by
+  unfold Cls.dynSlotEvaluator
+  rw [dynTaggers_eq, tagAll_eq]
+  have h := count_is_minus_misclassified (scored (dynModels fns classes xslot members d) d)
+  rw [nWrong_scored] at h
+  have h2 := correct_add_mislabelled (dynModels fns classes xslot members d) d
+  have h3 : nMislabelled (dynModels fns classes xslot members d) d =
+      d.length - nCorrect (dynModels fns classes xslot members d) d := by omega
+  rw [← h3]; exact h
+
+/-- binary -/
+theorem bin_evaluator_scores_lambdify (fns : Fns Rat) (members : Nat) (d : List (Cls.TEx Rat)) :
+    (@Cls.binaryEvaluator Rat (numC fns) members d).1 =
+      [ - (((d.length - nCorrect (binModels members) d : Nat)) : Rat) ] := by
+  unfold Cls.binaryEvaluator
+  rw [binTaggers_eq, tagAll_eq]
+  have h := count_is_minus_misclassified (scored (binModels (F := Rat) members) d)
+  rw [nWrong_scored] at h
+  have h2 := correct_add_mislabelled (binModels (F := Rat) members) d
+  have h3 : nMislabelled (binModels (F := Rat) members) d = d.length - nCorrect (binModels members) d := by omega
+  rw [← h3]; exact h
+
+/-- Gaussian: the documented score `Σ (right ? (confidence − 1)/(classes − 1) : −1)` over the answers
+    of lambdify(ind) on the training set -/
+theorem gauss_evaluator_scores_lambdify (fns : Fns Rat) (classes members : Nat) (d : List (Cls.TEx Rat)) :
+    (@Cls.gaussianEvaluator Rat (numC fns) classes members d).1 =
+      [ ((scored (gaussModels fns classes members d) d).map (gaussTerm ((classes - 1 : Nat) : Rat))).sum ] := by
+  unfold Cls.gaussianEvaluator
+  rw [gaussTaggers_eq, tagAll_eq]
+  exact gaussian_score _ _
+
+/-- … for doubles too: the classifier the evaluator scores and the one lambdify returns are the same
+    function of (member outputs, labels), whatever the number type and the library functions -/
+theorem evaluator_classifier_is_lambdify {F} [NumN F] (fns : Fns F) (classes xslot members : Nat) (d : List (Cls.TEx F)) :
+    @Cls.tagAll F _ (@Cls.dynTaggers F (numC fns) classes xslot members d) d = scored (dynModels fns classes xslot members d) d ∧
+    @Cls.tagAll F _ (@Cls.gaussTaggers F (numC fns) classes members d) d = scored (gaussModels fns classes members d) d ∧
+    @Cls.tagAll F _ (Cls.binTaggers members) d = scored (binModels members) d := by
+  refine ⟨?_, ?_, ?_⟩
+  · rw [dynTaggers_eq, tagAll_eq]
+  · rw [gaussTaggers_eq, tagAll_eq]
+  · rw [binTaggers_eq, tagAll_eq]
+
+/-- the value `reg_lambda_f` returns for the member outputs of one example -/
+def regModel {F} [Num F] (team : Bool) (outs : List (Option F)) : Option F :=
+  if team then teamValue outs else regValue (outs.getD 0 none)
+
+/-- symbolic regression (mae / rmae / mse / count), individuals and teams: the fitness is minus the
+    mean of the documented error of the MODEL's value (what lambdify(ind) returns) on each example -/
+theorem reg_evaluator_scores_lambdify (k : ErrKind) (team : Bool) (d : List (List (Option Rat) × Rat)) (h : d ≠ []) :
+    (evalFull (errF k) (d.map (fun e => (⟨regModel team e.1, e.2, 0⟩ : Ex Rat)))).1 =
+      [ - ((d.map (fun e => errF k (regModel team e.1) e.2)).sum / (d.length : Rat)) ] := by
+  rw [fitness_full _ _ (by simpa using h)]
+  simp only [List.map_map, List.length_map]
+  rfl
+
+/-! ## object lifetime (detail/lambda_f.h: `reg_lambda_f_storage`, the core of every model object) -/
+
+section lifetime
+open Life
+
+/-- `S = true`.  For EVERY table of special member functions in which constructors and assignments
+    take the source's individual and (re-)seat the interpreter on the object's own copy, in EVERY
+    history (the caller creates, overwrites, destroys individuals at will – the original included;
+    models are constructed, copy / move constructed, copy / move assigned – self-assignment
+    included –, destroyed, in any order) every live storing model's interpreter points at that
+    object's own stored individual, which is alive, is not one of the caller's, and – unless the
+    object has just been moved from – IS the individual the object stands for and the one the
+    interpreter was built for: the model reads it (never dangling, never another object's, never
+    through an interpreter dimensioned for another program). -/
+theorem stored_model_owns_its_individual {P : Type} [DecidableEq P] (tbl : Bool → Smf)
+    (hw : WellSeated (tbl true) = true) (junk : P → P) (h : List (Op P)) (i : Nat) (o : Obj P)
+    (ho : (run tbl junk h).objs i = some o) (hs : o.stored = true) :
+    o.ptr = o.cell ∧ (run tbl junk h).ext o.ptr = false ∧
+    (o.valid = true → (run tbl junk h).read i = some o.prog) := by
+  have inv := run_inv tbl hw junk h St.init inv_init
+  obtain ⟨h1, h2, _, h4, h5⟩ := inv.own i o (by simp) ho hs
+  refine ⟨h1, by rw [h1]; exact h4, ?_⟩
+  intro hv
+  show ((run tbl junk h).objs i).bind _ = _
+  have h2' : (run tbl junk h).heap o.cell = some o.prog := h2
+  rw [ho]; simp only [Option.bind]; rw [h1, h2', h5 hv]; simp
+
+/-- … and two live storing models never share the individual they read -/
+theorem stored_models_do_not_share {P : Type} (tbl : Bool → Smf) (hw : WellSeated (tbl true) = true)
+    (junk : P → P) (h : List (Op P)) (i j : Nat) (oi oj : Obj P) (hij : i ≠ j)
+    (hi : (run tbl junk h).objs i = some oi) (hj : (run tbl junk h).objs j = some oj)
+    (hsi : oi.stored = true) (hsj : oj.stored = true) : oi.ptr ≠ oj.ptr := by
+  have inv := run_inv tbl hw junk h St.init inv_init
+  have h1 := (inv.own i oi (by simp) hi hsi).1
+  have h2 := (inv.own j oj (by simp) hj hsj).1
+  intro hp
+  exact hij (inv.inj i j oi oj (by simp) (by simp) hi hj hsi hsj (by rw [← h1, ← h2]; exact hp))
+
+/-- `S = false` (what the evaluators use internally): under the DOCUMENTED precondition – the caller
+    neither overwrites nor destroys an individual a live reference-only model points at – the model
+    reads the individual it stands for; copies / assignments carry the pointer along. -/
+theorem ref_model_under_precondition {P : Type} [DecidableEq P] (tbl : Bool → Smf) (hw : WellSeated (tbl true) = true)
+    (hr : WellRef (tbl false) = true) (junk : P → P) (h : List (Op P))
+    (hsafe : RefSafe tbl junk St.init h) (i : Nat) (o : Obj P)
+    (ho : (run tbl junk h).objs i = some o) (hs : o.stored = false) :
+    (run tbl junk h).read i = some o.prog := by
+  have inv := run_invR tbl hw hr junk h St.init inv_init (by intro i o _ h; simp [St.init] at h) hsafe
+  obtain ⟨h1, _, h3⟩ := inv i o (by simp) ho hs
+  show ((run tbl junk h).objs i).bind _ = _
+  have h1' : (run tbl junk h).heap o.ptr = some o.prog := h1
+  rw [ho]; simp only [Option.bind]; rw [h1', h3]; simp
+
+/-- the special member functions of the CURRENT source (generated table) -/
+def shippedTbl : Bool → Smf := fun stored => if stored then Gen.storedSmf else Gen.refSmf
+
+/-- the obligation on the current source: the storing flavour re-seats everywhere (a defaulted copy
+    assignment, a swapped interpreter, an assignment that leaves `int_` alone – the interpreter's
+    cache is dimensioned on the OLD individual – … change the table and break this) -/
+theorem shipped_storage_well_seated : WellSeated (shippedTbl true) = true := by decide
+
+theorem shipped_ref_storage_well_formed : WellRef (shippedTbl false) = true := by decide
+
+/-- a de-serialised model binds the interpreter to its own individual too -/
+theorem shipped_load_seats_own : Gen.storedLoadPtr = .seatOwn := by decide
+
+/-- the team storage is a vector of member storages and declares no special member function: a team
+    model is copied / moved / destroyed member by member (a macro over the operations above) -/
+theorem shipped_team_storage_memberwise : Gen.teamFields = ["team_"] ∧ Gen.teamDeclared = [] := by decide
+
+/-- hence, for the code as it is: in every history every live model that stores its individual
+    predicts with its own, live copy of the individual it stands for -/
+theorem shipped_models_own_their_individual {P : Type} [DecidableEq P] (junk : P → P) (h : List (Op P)) (i : Nat)
+    (o : Obj P) (ho : (run shippedTbl junk h).objs i = some o) (hs : o.stored = true) (hv : o.valid = true) :
+    o.ptr = o.cell ∧ (run shippedTbl junk h).read i = some o.prog :=
+  let r := stored_model_owns_its_individual shippedTbl shipped_storage_well_seated junk h i o ho hs
+  ⟨r.1, r.2.2 hv⟩
+
+/-- every `lambdify` hands out a model that STORES its individual … -/
+theorem lambdify_routes_store : ∀ r ∈ Gen.routes, r.2.2 = true := by decide
+
+/-- … the forwarding evaluators delegate to the evaluator they wrap, and `src_search::lambdify` asks
+    the TRAINING evaluator on every path -/
+theorem search_lambdify_asks_training_evaluator :
+    Gen.searchSel.onlyTraining = true ∧ Gen.constrainedSel = .member "eva_" ∧ Gen.proxySel = .member "eva_" := by
+  decide
+
+end lifetime
+
 /-! ## non-vacuity -/
 
 def idFns : Fns Rat := ⟨fun v last => (v.floor.toNat % (last + 1)), fun _ => 1, fun _ => false, 10000000⟩
@@ -323,5 +612,55 @@ example : teamValue [some (1 : Rat), none, some 3] = some 2 := by
 example : wta [(0, (1 : Rat) / 2), (1, 3 / 4), (2, 3 / 4)] = (1, 3 / 4) := by
   simp [wta]; grind
 example : (mv 3 [(2, (1 : Rat)), (1, 1), (2, 1)]).1 = 2 := by decide
+
+
+section lifetime_examples
+open Life
+
+/-- construct from individual 7, destroy the individual, copy the model, destroy the first model,
+    assign over a model of individual 9: every survivor still reads 7 -/
+def sampleHistory : List (Op Nat) :=
+  [.newInd 7, .newInd 9, .construct true 1, .construct true 2, .delInd 1, .copyConstruct 0, .destroy 0,
+   .copyAssign 1 2, .setInd 2 5]
+example : (run shippedTbl id sampleHistory).read 2 = some 7 ∧ (run shippedTbl id sampleHistory).read 1 = some 7 ∧
+    (run shippedTbl id sampleHistory).read 0 = none := by decide
+
+/-- a safe history of a reference-only model (the precondition is satisfiable) … -/
+example : RefSafe (P := Nat) shippedTbl id St.init [.newInd 7, .construct false 1, .copyConstruct 0, .newInd 8, .setInd 2 3] := by
+  simp [RefSafe, opSafe, step, St.init, upd, constructFrom, runMember, applyInd, applyPtr, shippedTbl, Gen.refSmf]
+  intro i o h _
+  repeat' split at h
+  all_goals first
+    | (injection h with h; subst h; simp)
+    | cases h
+
+/-- … and what the precondition protects from: overwrite the individual and the model no longer reads
+    the individual it stands for (its interpreter faces a program it was not built for) -/
+example : (run (P := Nat) shippedTbl id [.newInd 7, .construct false 1, .setInd 1 3]).read 0 = none := by decide
+
+/-- the model DISTINGUISHES tables: with a memberwise (defaulted) copy the copy's interpreter still
+    points into the original model – destroy the original and the copy dangles -/
+def memberwiseTbl : Bool → Smf := fun _ =>
+  { Gen.storedSmf with copyCtor := ⟨.copy, .copyPtr⟩, copyAssign := ⟨.copy, .copyPtr⟩,
+                       moveCtor := ⟨.copy, .copyPtr⟩, moveAssign := ⟨.copy, .copyPtr⟩ }
+example : (run (P := Nat) memberwiseTbl id [.newInd 7, .construct true 1, .copyConstruct 0, .destroy 0]).read 1 = none := by
+  decide
+example : WellSeated (memberwiseTbl true) = false := by decide
+
+/-- an assignment that copies the individual but leaves the interpreter alone: the pointer is right,
+    the interpreter is not (built for the old individual 7, now facing 9): no value -/
+def keepTbl : Bool → Smf := fun _ => { Gen.storedSmf with copyAssign := ⟨.copy, .keep⟩ }
+example : (run (P := Nat) keepTbl id [.newInd 7, .newInd 9, .construct true 1, .construct true 2, .copyAssign 0 1]).read 0 = none := by
+  decide
+example : WellSeated (keepTbl true) = false := by decide
+
+/-- a move assignment that swaps the interpreters too (seeded change C08-m1): after `a = move(b)` the
+    interpreter of `a` points into `b`, at the OLD individual of `a`, with a cache built for `b`'s:
+    `a` does not read the individual 9 it now stands for -/
+def swapTbl : Bool → Smf := fun _ => { Gen.storedSmf with moveAssign := ⟨.swap, .swapPtr⟩ }
+example : (run (P := Nat) swapTbl id [.newInd 7, .newInd 9, .construct true 1, .construct true 2, .moveAssign 0 1]).read 0 ≠ some 9 := by
+  decide
+
+end lifetime_examples
 
 end Vita.C08
